@@ -23,6 +23,15 @@
 (* of the step (requests are issued and settle without time passing; only     *)
 (* Advance steps and `pre` move the clock).                                   *)
 (*                                                                            *)
+(* `store` (on every line) is the state of the EventStore the handler was      *)
+(* configured with: none / mem (no store, MemoryEventStore), or the mode of a *)
+(* scripted store: up, nopurge (SessionClosed and Append fail), down (Open,   *)
+(* Append and SessionClosed fail); op SetStore switches it.  The clauses do   *)
+(* not read it: a terminated session is dead whatever the store answers.  The *)
+(* only trace of it here: a POST answered 5xx (the store could not open a     *)
+(* stream) did pass the session lookup, so the session may count it as        *)
+(* activity (latest possible idle deadline) or not (earliest possible one).   *)
+(*                                                                            *)
 (* Ties: a request issued at exactly the idle deadline of its session may be  *)
 (* served or refused; every clause below is written so that it does not       *)
 (* judge such a request, nor a request issued while a termination is under    *)
@@ -106,7 +115,9 @@ Step(e) ==
       delDone1 == delDone \cup {d.tgt : d \in {x \in ok : x.m = "DELETE"}}
       closeIssued1 == IF e.op = "Close" /\ e.note = "" THEN closeIssued \cup {e.a2} ELSE closeIssued
       closeRet1 == closeRet \cup AsSet(e.closeret)
-      idleAny1 == [i \in MIds |-> IF i \in newIds \/ i \in postOk \/ i \in getOk THEN t ELSE idleAny[i]]
+      \* POSTs that got past the session lookup but failed later (5xx): possibly activity
+      postMaybe == {d.tgt : d \in {x \in dn : x.m = "POST" /\ x.tgt \in minted1 /\ x.status >= 500}}
+      idleAny1 == [i \in MIds |-> IF i \in newIds \/ i \in postOk \/ i \in getOk \/ i \in postMaybe THEN t ELSE idleAny[i]]
       live == {x \in AsSet(e.sess) : x \in MIds}   \* (ids beyond the tracked range are ignored)
       \* POSTs that were in progress on i at some moment of this step (refused ones do not count)
       During(i) == {k \in DOMAIN all : all[k].m = "POST" /\ all[k].tgt = i
